@@ -140,6 +140,8 @@ pub struct Program {
     pub page_size: usize,
     /// byte size of the bitmap (the last page may be partial)
     pub byte_size: usize,
+    /// Some(n): the bitmap is created for n bytes and enlarged to byte_size before it is shared
+    pub grown_from: Option<usize>,
     pub premarked: Vec<usize>,
     pub threads: Vec<Vec<Op>>,
 }
@@ -156,7 +158,14 @@ pub struct Execution {
 pub fn execute(prog: &Program, mut choose: impl FnMut(usize, usize) -> usize) -> Execution {
     let s = shared();
     let n = prog.threads.len();
-    let bm = Arc::new(AtomicBitmap::new(prog.byte_size, NonZeroUsize::new(prog.page_size).unwrap()));
+    let bm = Arc::new(match prog.grown_from {
+        Some(n) => {
+            let mut b = AtomicBitmap::new(n, NonZeroUsize::new(prog.page_size).unwrap());
+            b.enlarge(prog.byte_size - n);
+            b
+        }
+        None => AtomicBitmap::new(prog.byte_size, NonZeroUsize::new(prog.page_size).unwrap()),
+    });
     for p in &prog.premarked {
         bm.set_bit(*p);
     }
@@ -300,7 +309,7 @@ fn gen_op(t: &mut Tape, pages: usize, focus: usize, ps: usize, byte_size: usize)
 
 fn gen_program(t: &mut Tape) -> Program {
     let pages = 70 + t.idx(71);
-    let focus = t.pick(&[0usize, 60, 62, 63, 64, 66]);
+    let focus = t.pick(&[0usize, 60, 62, 63, 64, 66, pages - 4]);
     let nthreads = 2 + t.idx(2);
     let page_size = t.pick(&[1usize, 1, 1, 3, 48, 1000, 4096]);
     let byte_size = pages * page_size - t.idx(page_size);
@@ -314,7 +323,8 @@ fn gen_program(t: &mut Tape) -> Program {
     for _ in 0..t.idx(3) {
         premarked.push(t.idx(pages));
     }
-    Program { pages, page_size, byte_size, premarked, threads }
+    let grown_from = if t.chance(1, 5) { Some(t.idx(byte_size + 1)) } else { None };
+    Program { pages, page_size, byte_size, grown_from, premarked, threads }
 }
 
 fn shape_labels(prog: &Program, ex: &Execution, cx: &mut Cx) {
@@ -340,7 +350,7 @@ fn run_random(t: &mut Tape, cx: &mut Cx) -> Result<(), String> {
     let prog = gen_program(t);
     // the schedule comes from the tape as well
     let ex = execute(&prog, |_, k| t.idx(k));
-    note!(cx, "pages {} page size {} premarked {:?} threads {:?} schedule {:?}", prog.pages, prog.page_size, prog.premarked, prog.threads, ex.decisions.iter().map(|d| d.1).collect::<Vec<_>>());
+    note!(cx, "pages {} page size {}{} premarked {:?} threads {:?} schedule {:?}", prog.pages, prog.page_size, match prog.grown_from { Some(n) => format!(" (grown from {} bytes)", n), None => String::new() }, prog.premarked, prog.threads, ex.decisions.iter().map(|d| d.1).collect::<Vec<_>>());
     shape_labels(&prog, &ex, cx);
     judge(&prog, &ex)
 }
@@ -348,7 +358,7 @@ fn run_random(t: &mut Tape, cx: &mut Cx) -> Result<(), String> {
 /// Small scopes: a fixed family of programs, every interleaving enumerated depth-first.
 fn scope_programs() -> Vec<Program> {
     let mut v = Vec::new();
-    let mk = |premarked: Vec<usize>, threads: Vec<Vec<Op>>| Program { pages: 130, page_size: 1, byte_size: 130, premarked, threads };
+    let mk = |premarked: Vec<usize>, threads: Vec<Vec<Op>>| Program { pages: 130, page_size: 1, byte_size: 130, grown_from: None, premarked, threads };
     for base in [0usize, 62] {
         let (a, b, c) = (base, base + 1, base + 2);
         // two markers in one word
@@ -381,7 +391,7 @@ fn scope_programs() -> Vec<Program> {
 
 fn scope_programs_deep() -> Vec<Program> {
     let mut v = scope_programs();
-    let mk = |premarked: Vec<usize>, threads: Vec<Vec<Op>>| Program { pages: 130, page_size: 1, byte_size: 130, premarked, threads };
+    let mk = |premarked: Vec<usize>, threads: Vec<Vec<Op>>| Program { pages: 130, page_size: 1, byte_size: 130, grown_from: None, premarked, threads };
     for base in [0usize, 62] {
         let (a, b, c, d) = (base, base + 1, base + 2, base + 3);
         v.push(mk(vec![d], vec![vec![Op::SetRange(a, 3), Op::Harvest], vec![Op::SetRange(b, 3), Op::Harvest]]));
@@ -443,7 +453,7 @@ fn gen_scopes(tier: Tier) -> Box<dyn Iterator<Item = Vec<u64>>> {
 pub fn property() -> Property {
     Property {
         id: "C08",
-        rule: "a case = a concurrent program (2..3 threads x 1..4 operations from set_addr_range, set_bit, reset_addr_range, reset_bit, get_and_reset, clone, is_bit_set on pages that share a 64-bit word or span two, page sizes {1, 3, 48, 1000, 4096} with byte-addressed ranges and a possibly partial last page, resets that run from the middle to the end, optionally pre-marked pages) + a schedule: at every atomic operation of the bitmap (hook H2) the tape chooses which thread advances; small scopes (30 hand-picked program shapes, more and deeper in the thorough tier) have ALL their interleavings enumerated depth-first (counter 'schedules'); oracle = history invariant: harvested U final U clones are subsets of the marked pages, no page index >= page count, and every marked page that no thread reset is harvested or still set; non-trivial = a schedule that actually interleaves the threads (more context switches than threads), every enumerated scope; distinct = decoded (program, schedule)",
+        rule: "a case = a concurrent program (2..3 threads x 1..4 operations from set_addr_range, set_bit, reset_addr_range, reset_bit, get_and_reset, clone, is_bit_set on pages that share a 64-bit word or span two, page sizes {1, 3, 48, 1000, 4096} with byte-addressed ranges and a possibly partial last page, bitmaps created smaller and enlarged before being shared, resets that run from the middle to the end, optionally pre-marked pages) + a schedule: at every atomic operation of the bitmap (hook H2) the tape chooses which thread advances; small scopes (30 hand-picked program shapes, more and deeper in the thorough tier) have ALL their interleavings enumerated depth-first (counter 'schedules'); oracle = history invariant: harvested U final U clones are subsets of the marked pages, no page index >= page count, and every marked page that no thread reset is harvested or still set; non-trivial = a schedule that actually interleaves the threads (more context switches than threads), every enumerated scope; distinct = decoded (program, schedule)",
         assumptions: &["only sequentially consistent interleavings at the granularity of the instrumented atomic operations are produced; weak-memory reorderings are out of reach", "how often a page is reported is not asserted (over-reporting is allowed by the statement)", "reset() (plain store, documented as non-harvesting) is not part of the generated programs"],
         subchecks: vec![
             SubCheck { name: "scopes", builds: &[Build::Std], kind: Kind::Exhaustive { gen: gen_scopes }, run: run_scope },
